@@ -77,6 +77,9 @@ func (e *Engine) verifyFunc(key string) (res *FuncResult) {
 		v := st.symbolic(p.Type(), "p_"+p.Name())
 		fr.locals[p] = v
 		x.params[p.Name()] = v
+		for _, a := range x.aliasesOf(p.Name()) {
+			x.params[a] = v
+		}
 	}
 	for _, fv := range fn.FreeVars {
 		v := st.symbolic(fv.Type(), "fv_"+fv.Name())
@@ -90,6 +93,9 @@ func (e *Engine) verifyFunc(key string) (res *FuncResult) {
 			st.assume(typeConstraint(val.Typ, val.C))
 			st.assumeAllocated(val)
 			x.params[fv.Name()] = val
+		}
+		for _, a := range x.aliasesOf(fv.Name()) {
+			x.params[a] = x.params[fv.Name()]
 		}
 	}
 	if fn.Signature.Recv() != nil && len(fn.Params) > 0 {
@@ -653,6 +659,9 @@ func (x *Exec) loopEnter(st *State, li *loopInfo, from *ssa.BasicBlock) {
 	for _, ph := range x.headerPhis(li) {
 		if ph.Comment != "" {
 			phiVals["$"+ph.Comment] = x.eval(st, ph.Edges[idx])
+			for _, a := range x.aliasesOf(ph.Comment) {
+				phiVals["$"+a] = phiVals["$"+ph.Comment]
+			}
 		}
 	}
 	env := x.loopEnv(st, li, phiVals)
@@ -743,6 +752,9 @@ func (x *Exec) loopEnter(st *State, li *loopInfo, from *ssa.BasicBlock) {
 		fr.locals[ph] = v
 		if ph.Comment != "" {
 			phiVals["$"+ph.Comment] = v
+			for _, a := range x.aliasesOf(ph.Comment) {
+				phiVals["$"+a] = v
+			}
 		}
 	}
 	env = x.loopEnv(st, li, phiVals)
@@ -791,6 +803,9 @@ func (x *Exec) loopBackEdge(st *State, li *loopInfo, from *ssa.BasicBlock) {
 	for _, ph := range x.headerPhis(li) {
 		if ph.Comment != "" {
 			phiVals["$"+ph.Comment] = x.eval(st, ph.Edges[idx])
+			for _, a := range x.aliasesOf(ph.Comment) {
+				phiVals["$"+a] = phiVals["$"+ph.Comment]
+			}
 		}
 	}
 	uenv := x.loopEnv(st, li, phiVals)
